@@ -382,6 +382,28 @@ where
     exit_code = 1;
   }
 
+  // Evidence of a companion binary run just before this one (e.g. C15S: the Stronghold part of C15's
+  // thorough tier) is merged in: its coverage becomes a part and its counts are added.
+  if let Ok(paths) = std::env::var("VX_MERGE_EVIDENCE") {
+    for path in paths.split(':').filter(|p| !p.is_empty()) {
+      match std::fs::read_to_string(path).ok().and_then(|t| serde_json::from_str::<Value>(&t).ok()) {
+        Some(v) => {
+          let cov = v.get("coverage").cloned().unwrap_or(Value::Null);
+          let n = |k: &str| cov.get(k).and_then(|x| x.as_u64()).unwrap_or(0);
+          ctx.add_states(n("states"));
+          ctx.add_transitions(n("transitions"));
+          ctx.add_traces(n("traces_validated_against_impl"));
+          ctx.add_evals(n("evaluations"));
+          if cov.get("exhaustive").and_then(|b| b.as_bool()) == Some(false) {
+            ctx.cap_hit(&format!("companion run {path} was not exhaustive"));
+          }
+          ctx.part(&format!("companion:{}", v.get("property_id").and_then(|p| p.as_str()).unwrap_or(path)), json!({"tier": v.get("tier"), "wall_s": v.get("wall_s"), "violations": v.get("violations"), "coverage": cov}));
+        }
+        None => ctx.machinery.lock().unwrap().push(format!("companion evidence {path} missing or unreadable")),
+      }
+    }
+  }
+
   // Evidence.
   let outcomes = ctx.outcomes.lock().unwrap().clone();
   let distinct = ctx.distinct.lock().unwrap().len() as u64;
